@@ -11,6 +11,7 @@ def run(ctx):
     from crysp.hmac import HMAC
     names = H.MDSHA + H.BLAKES
     traces = []
+    shared_keys = {}
     for ai, name in enumerate(names):
         Bb = H.blockbytes(name); dg = H.outlen(name)
         klens = [0, 1, dg - 1, dg, dg + 1, Bb - 1, Bb, Bb + 1, 2 * Bb, 3 * Bb]
@@ -28,6 +29,9 @@ def run(ctx):
             obj = None
             for j, kl in enumerate(seq):
                 def mk(kl=kl):
+                    if (si + ai) % 2 == 0:                # every other key is shared by all hashes with that key length (same bytes under SHA-512, SHA-512/224, SHA-512/256, ...)
+                        if kl not in shared_keys: shared_keys[kl] = bytes(rnd.randrange(256) for _ in range(kl))
+                        return shared_keys[kl]
                     k = bytearray(rnd.randrange(256) for _ in range(kl))
                     cls = (si + ai) % 6            # content classes: bytes that cancel against ipad / opad, leading zero bytes
                     if kl and cls == 1: k[0] = 0x36
@@ -46,7 +50,7 @@ def run(ctx):
                     M = bytes(rnd.randrange(256) for _ in range(ml))
                     e = dict(op='mac', m=B(M), raised='', out=[])
                     try:
-                        r = obj(M); e['out'] = B(r) if isinstance(r, (bytes, bytearray)) else []
+                        r = obj(M); e['out'] = B(r) if isinstance(r, bytes) else []
                     except Exception as ex: e['raised'] = type(ex).__name__
                     ev.append(e)
             traces.append(dict(alg=H.ALGS[name], name=name, ev=ev, klens=seq)); ctx.mark((name, str(seq)))
@@ -63,7 +67,7 @@ def run(ctx):
         for ml in ((4096, 8192, 4097, 12288) if big else (4096, 8192, 4097)):
             M = bytes(rnd.randrange(256) for _ in range(ml)); e = dict(op='mac', m=B(M), raised='', out=[])
             try:
-                r = obj(M); e['out'] = B(r) if isinstance(r, (bytes, bytearray)) else []
+                r = obj(M); e['out'] = B(r) if isinstance(r, bytes) else []
             except Exception as ex: e['raised'] = type(ex).__name__
             ev.append(e)
         traces.append(dict(alg=H.ALGS[name], name=name, ev=ev, klens=[16])); ctx.mark((name, 'long messages'))
